@@ -191,8 +191,10 @@ class SyncedList(SyncedCollection, MutableSequence):
         data = _convert_numpy(data)
         if _sequence_resolver.get_type(data) == "SEQUENCE":
             if self._root is None:
-                self._update(data)
+                # The modification must happen inside the locked section, or a
+                # concurrent writer's load/save cycle can discard it.
                 with self._thread_lock:
+                    self._update(data)
                     self._save()
             else:
                 # A nested collection may be stale: other handles can have
@@ -250,9 +252,11 @@ class SyncedList(SyncedCollection, MutableSequence):
 
     def clear(self):  # noqa: D102
         if self._root is None:
-            # Clear in place: buffers may hold a reference to the container.
-            del self._data[:]
+            # The modification must happen inside the locked section, or a
+            # concurrent writer's load/save cycle can discard it.
             with self._thread_lock:
+                # Clear in place: buffers may hold a reference to the container.
+                del self._data[:]
                 self._save()
         else:
             # A nested collection may be stale: other handles can have
